@@ -1242,6 +1242,14 @@ func replay(c *core.Ctx) {
 		c.HarnessError("bad case: %v", err)
 		return
 	}
+	if cs.SaveFormat <= -21 {
+		checker{c}.loadAfterReplace(-cs.SaveFormat - 21)
+		return
+	}
+	if cs.SaveFormat <= -11 {
+		checker{c}.afterFailedRead(-cs.SaveFormat - 11)
+		return
+	}
 	if cs.SaveFormat < 0 {
 		checker{c}.afterFailedWrite(-cs.SaveFormat - 1)
 		return
